@@ -7,7 +7,8 @@ PROP = 'C07'
 RULE = ("for every struct/union of generated schemas compiled with the C++ full codec under ASan+UBSan+LSan: every prefix "
         "of canonical encodings, extensions, control words (counters/flags/discriminators/enums/sizers) set to boundary "
         "values, garbage padding, bit flips, splices, random bytes and the empty input, in both byte orders, are copied "
-        "into an exact-size heap block and decoded, into fresh objects and (second pass) into reused objects. "
+        "into an exact-size heap block and decoded, into fresh objects and into one long-lived object per type that still "
+        "holds whatever earlier (accepted or refused) decodes left in it. "
         "Monitors: any sanitizer report; a replaced operator new that refuses and logs requests above "
         "(64+max sizeof of reachable composite types)*n+4096 bytes during decode; decode==true requires get_byte_size()==n==len(encode<E>()), agreement of the input with its own "
         "re-encoding on every non-padding byte, and acceptance by the lenient reference decoder. distinct = "
@@ -105,11 +106,13 @@ def run_shard(spec):
                 e, sel = rng.choice((('<', 1), ('>', 2)))
                 data, spans = w.encode(n, v, e)
                 add(ti, n, sel, e, 0, 'canonical', '', data, v)
+                add(ti, n, sel, e, 4, 'canonical+reused-object', '', data, v)
                 for fam, desc, mut in corrupt.mutations(data, spans, e, rng, other=prev, flips=10, doubles=3,
                                                         max_prefix=160):
                     add(ti, n, sel, e, 0, fam, desc, mut, v)
                     if fam.startswith('control') or fam in ('splice', 'random'):
-                        add(ti, n, sel, e, 4 | 8, fam + '+reused-object', desc, mut, v)
+                        add(ti, n, sel, e, 4, fam + '+reused-object', desc, mut, v)
+                add(ti, n, sel, e, 4, 'canonical+reused-object', 'after-corruptions', data, v)
                 prev = data
         res, reports = cppdrv.run_cases(env['binary'], cases)
         for cid, (n, e, sel, op, fam, desc, data, v) in info.items():
@@ -156,8 +159,8 @@ def run_shard(spec):
                 continue
             acc.count('accepted')
             acc.sig((n, fam0, 'accepted'))
-            if op & 8:
-                continue  # reused-object pass: sanitizers and the allocation monitor are the only oracles
+            if op & 4:
+                acc.count('accepted_into_reused_object')
             if known:
                 acc.count('accepted_on_known_finding_type_not_judged')
                 continue
